@@ -1,6 +1,7 @@
 import Driver.Util
 import HeimdallModel.Model.Sha256
 import HeimdallModel.Model.CacheExec
+import HeimdallModel.Model.CacheReload
 import HeimdallModel.Spec.CacheReuse
 import HeimdallModel.Spec.CacheDeps
 import HeimdallModel.Gen.CacheKeys
@@ -8,7 +9,9 @@ import HeimdallModel.Gen.CacheKeys
 /-! Line-protocol family `cachekey`:
 * `op = "key"`: the set of keys `key sha256 fs env` a key function of the current source (generated field list) can
   produce for the given values, over all iteration orders of the maps it ranges over directly;
-* `op = "run"`: a history of requests against `keyed sha256 fs deps …` (the model) and `direct` (the spec). -/
+* `op = "run"`: a history of requests and reloads (`Model/CacheReload.lean`: `runEv`) against
+  `stateful (keyed sha256 fs deps …)` (the model) and `direct` under the state in force (the spec). The reloadable sources
+  (`state` of the case, `reload` of a step: the state from that step on) are NOT part of the steps' own values. -/
 open Lean Heimdall Heimdall.CacheKey Heimdall.CacheExec
 
 namespace Driver.CacheKey
@@ -135,12 +138,21 @@ def indexOf? {α : Type} [BEq α] (l : List α) (x : α) : Option Nat :=
     | y :: ys, i => if y == x then some i else go ys (i + 1)
   go l 0
 
+/-- reloadable sources: nested digests (`sub`) and plain values (`str`) by source name -/
+def overlayOf (j : Json) : E Overlay := do
+  let subs ← (objEntries j "sub").mapM fun (lbl, spec) => do
+    let ks ← keysOf (← str spec "fn") (fldD spec "env" (Json.mkObj []))
+    pure (lbl, ks.headD [])
+  pure (subs ++ (objEntries j "str").map fun (k, v) => (k, hexB (v.getStr?.toOption.getD "")))
+
 def runHistory (c : Json) : E Json := do
   let fn ← str c "fn"
   let fs ← fieldsOf fn
   let ds := deps fn
   let stepsJ ← arr c "steps"
-  let mut steps : List Step := []
+  let s₀ ← overlayOf (fldD c "state" (Json.mkObj []))
+  let mut evs : List (Event Overlay KReq) := []
+  let mut reloads := 0
   for sj in stepsJ do
     -- nested digests must be deterministic here: the first possible value is taken
     let envJ := fldD sj "env" (Json.mkObj [])
@@ -153,7 +165,12 @@ def runHistory (c : Json) : E Json := do
       lst := (objEntries envJ "lst").map fun (k, v) => (k, jHexList v),
       map := (objEntries envJ "map").map fun (k, v) => (k, jPairs v),
       has := (objEntries envJ "has").map fun (k, v) => (k, v.getBool?.toOption.getD false) }
-    steps := steps ++ [⟨natD sj "t" 0, ⟨raw.toEnv, natD sj "policy" 0, boolD sj "enabled" true, natD sj "ttl" 1000000⟩⟩]
+    if !isNull sj "reload" then
+      evs := evs ++ [.reload (← overlayOf (fldD sj "reload" (Json.mkObj [])))]
+      reloads := reloads + 1
+    evs := evs ++ [.req (natD sj "t" 0) ⟨raw.toEnv, natD sj "policy" 0, boolD sj "enabled" true, natD sj "ttl" 1000000⟩]
+  -- every request with the state in force when it is made
+  let steps : List Step := (inForce s₀ evs).map fun x => ⟨x.1, x.2.2.withState x.2.1⟩
   let views := steps.map fun s => ds.map (·.view s.req.env)
   let fails ← (do if isNull c "fails" then pure [] else nats c "fails")
   -- verdicts: [policy, origin step, accepted]
@@ -170,7 +187,7 @@ def runHistory (c : Json) : E Json := do
       | none => true
     | none => true
   let m := keyed Sha256.hash fs ds remote accepts (recheckOf fn)
-  let results := run m Store.empty (steps.map fun s => (s.t, s.req))
+  let results := runEv (stateful m) s₀ Store.empty evs
   let origin (o : Outcome (List View)) : Json := match o with
     | .ok v => match indexOf? views v with
       | some j => jnat j
@@ -185,7 +202,8 @@ def runHistory (c : Json) : E Json := do
   pure (Json.mkObj [
     ("res", Json.mkObj [("model", jarr model), ("spec", jarr spec), ("classes", jarr (views.map fun v =>
       match indexOf? views v with | some j => jnat j | none => Json.null))]),
-    ("stats", Json.mkObj [("steps", jnat steps.length), ("hits", jnat hits), ("recheck", Json.bool (recheckOf fn))])])
+    ("stats", Json.mkObj [("steps", jnat steps.length), ("hits", jnat hits), ("reloads", jnat reloads),
+      ("recheck", Json.bool (recheckOf fn))])])
 
 def runFacts : E Json :=
   pure (Json.mkObj [("res", Json.mkObj [
